@@ -100,7 +100,11 @@ MLFIRST = [  # list-valued fields whose FIRST element spans several lines (the s
     "f(g(\n  1), *h, k=2)\nimport a.\\\n b as c, d",
     "global a, b, c, d, e\ndef f():\n    nonlocal p, q, r, s\n    del t, u[0], v.w, x",
 ]
-PROGS = BASE + EXTRA + TRICKY + PARS + LOCS + MULTILINE + FSTRDBG + DECOS + MLFIRST
+MLELEM = [  # single elements of the special parse modes that span lines themselves (keyword values, parameters, aliases, items)
+    "f(a=(1,\n 2), b=[\nc, d], **{\n'k': v})\nclass K(m=(\n M)): pass",
+    "def f(a: (\n int) = (2,\n 3), *b: [\n c]): pass\nwith (yield\n x) as (p,\n q): pass\nfrom m import (a as\n b)",
+]
+PROGS = BASE + EXTRA + TRICKY + PARS + LOCS + MULTILINE + FSTRDBG + DECOS + MLFIRST + MLELEM
 for _p in PROGS:
     ast.parse(_p)
 
